@@ -291,7 +291,7 @@ def r5_monophony(ctx):
         return
     val = F.fold(ctx, rets[0][1], f)
     fm = G._formula(val)
-    kern = f"1 == len(spine_types({d}, headers=['**kern']))"
+    kern = f"1 == len(spine_types({d}, ['**kern']))"
     chord = f'nonempty({d}.get_all_tokens(filter_by_categories=[TokenCategory.CHORD]))'
     note = f'nonempty({d}.get_all_tokens(filter_by_categories=[TokenCategory.NOTE_REST]))'
     eq, cex, unknown = G.compare(fm, lambda v: v['k'] and not v['c'] and v['n'], {kern: 'k', chord: 'c', note: 'n'})
